@@ -755,6 +755,9 @@ pub struct FamReq<'r> {
     pub keep: u8,
     /// `alloc_slice_move`: 0 `Vec<T>`, 1 `Box<[T]>`, 2 `&mut Vec<T>`
     pub owned: u8,
+    /// `alloc_iter_exact`: number of items the `ExactSizeIterator` really yields (`len` is what its `len()` announces;
+    /// equal for a truthful iterator, smaller = over-reporting, bigger = under-reporting)
+    pub avail: usize,
     /// a request that cannot succeed: no source is materialised (only for entry points that do not need one up front)
     pub huge: bool,
 }
@@ -1015,21 +1018,28 @@ impl FT for TrkZ {
 }
 
 struct SrcIter<T> {
+    /// what `size_hint` / `len()` announce
     left: usize,
+    /// what `next` really has
+    avail: usize,
     _m: PhantomData<T>,
 }
 impl<T> SrcIter<T> {
     fn new(left: usize) -> Self {
-        SrcIter { left, _m: PhantomData }
+        SrcIter { left, avail: left, _m: PhantomData }
+    }
+    fn lying(left: usize, avail: usize) -> Self {
+        SrcIter { left, avail, _m: PhantomData }
     }
 }
 impl<T: FT> Iterator for SrcIter<T> {
     type Item = T;
     fn next(&mut self) -> Option<T> {
-        if self.left == 0 {
+        if self.avail == 0 {
             None
         } else {
-            self.left -= 1;
+            self.avail -= 1;
+            self.left = self.left.saturating_sub(1);
             Some(T::make())
         }
     }
@@ -1178,7 +1188,7 @@ fn ep_uninit_slice_for<'a, B: BumpAllocatorTypedScope<'a> + ?Sized, T: FT>(b: &B
     Ok(fin_s(u.init_move(v), q))
 }
 fn ep_iter_exact<'a, B: BumpAllocatorTypedScope<'a> + ?Sized, T: FT>(b: &B, q: &FamReq) -> FamRes {
-    Ok(fin_s(twin!(q, b.alloc_iter_exact / try_alloc_iter_exact(SrcIter::<T>::new(q.len))), q))
+    Ok(fin_s(twin!(q, b.alloc_iter_exact / try_alloc_iter_exact(SrcIter::<T>::lying(q.len, q.avail))), q))
 }
 fn ep_iter<'a, B: BumpAllocatorTypedScope<'a> + ?Sized, T: FT>(b: &B, q: &FamReq) -> FamRes {
     Ok(fin_s(twin!(q, b.alloc_iter / try_alloc_iter(SrcIter::<T>::new(q.len))), q))
